@@ -176,6 +176,33 @@ Example C10_array_with_example :
   = Val (RArr Z {| avals := [Some 5; None; Some 1; None; Some 3]; aoff := -2; acnt := 3 |}).
 Proof. split; vm_compute; reflexivity. Qed.
 
+(* Array.Where, for EVERY array satisfying the invariant and EVERY predicate - an arbitrary function from the item
+   (index, value) to true / false / error, so every list of predicate outcomes incl. a failure part-way: the outcome is
+   a value satisfying the invariant again (first and last cell are items, count = number of items - the trimming after
+   the filter is right), the empty set, or the predicate's ordinary error.  Never a panic, never a hang. *)
+From Arrai Require Import Proofs.SeqSafeArrWhereP.
+Theorem C10_array_where_never_panics :
+  forall (max_alloc : Z) (V : Type), 0 < max_alloc <= 281474976710656 ->
+  forall (a : arr V) (p : Z -> V -> option bool), inv_arr max_alloc V a ->
+    match arr_where max_alloc V a p with
+    | Val r => inv max_alloc V r
+    | ErrOrd => True
+    | Panic _ | Hang => False
+    end.
+Proof.
+  intros max_alloc V Hmax a p Ha. pose proof (arr_where_safe max_alloc V Hmax a p Ha) as H.
+  destruct (arr_where max_alloc V a p); exact H.
+Qed.
+Print Assumptions C10_array_where_never_panics.
+
+(* non-trivial instances: keeping only the middle item re-trims both ends; a predicate failing on the last item is an error *)
+Example C10_array_where_example :
+  arr_where 4294967296 Z {| avals := [Some 1; None; Some 3; Some 4]; aoff := 5; acnt := 3 |} (fun i _ => Some (i =? 7))
+  = Val (RArr Z {| avals := [Some 3]; aoff := 7; acnt := 1 |}) /\
+  arr_where 4294967296 Z {| avals := [Some 1; None; Some 3; Some 4]; aoff := 5; acnt := 3 |}
+            (fun i _ => if i =? 8 then None else Some false) = ErrOrd.
+Proof. split; vm_compute; reflexivity. Qed.
+
 (* the hypotheses are satisfiable by non-trivial values *)
 Example C10_inv_arr_example : inv_arr 4294967296 Z {| avals := [Some 1; None; None; Some 4]; aoff := -3; acnt := 2 |}.
 Proof. vm_compute. repeat split; congruence. Qed.
